@@ -157,7 +157,12 @@ def run_check(prop, tier):
     samples = []
     harness_errors, timeouts, aborts = [], [], []
     viol_runs = []
+    n = 0
+    run_digests = []
+    sample_pool = []
     for d in results:
+        n += 1
+        run_digests.append((d["i"], d.get("trace_digest")))
         stats.update(d.get("stats") or {})
         steps += d.get("steps", 0)
         sim_time += d.get("sim_time", 0.0) or 0.0
@@ -175,9 +180,13 @@ def run_check(prop, tier):
         if d.get("abort"):
             aborts.append({"i": d["i"], "seed": d["seed"], "status": d.get("status")})
         if d.get("violation"):
-            viol_runs.append(d)
-        elif d.get("trace") is not None and len(samples) < 4 and not d.get("error"):
-            samples.append(engine.sample_of(d["trace"]))
+            if len(viol_runs) < 200:
+                viol_runs.append(d)
+        elif d.get("trace") is not None and not d.get("error"):
+            if len(samples) < 4:
+                samples.append(engine.sample_of(d["trace"]))
+            elif len(sample_pool) < 1:
+                sample_pool.append(d["trace"])
 
     # 3. minimise, confirm in a fresh interpreter, match against open findings, report
     seen_classes = set()
@@ -228,18 +237,14 @@ def run_check(prop, tier):
 
     for e in harness_errors[:5]:
         print(f"HARNESS-ERROR run={e['i']} seed={e['seed']}: {e['error'][-600:]}", file=sys.stderr)
-    if harness_errors and len(harness_errors) > 0.02 * max(1, len(results)):
-        print(f"HARNESS-ERROR rate too high: {len(harness_errors)}/{len(results)}", file=sys.stderr)
+    if harness_errors and len(harness_errors) > 0.02 * max(1, n):
+        print(f"HARNESS-ERROR rate too high: {len(harness_errors)}/{n}", file=sys.stderr)
         exit_code = exit_code or 2
 
     wall = time.time() - t0
-    n = len(results)
     completed = n - len(harness_errors) - len(timeouts) - len(aborts)
-    if not samples and results:
-        for d in results:
-            if d.get("trace") is not None:
-                samples.append(engine.sample_of(d["trace"]))
-                break
+    if not samples and sample_pool:
+        samples.append(engine.sample_of(sample_pool[0]))
     if not samples:
         samples = [{"note": "no completed run kept a trace"}]
     ops = {k[3:]: v for k, v in stats.items() if k.startswith("op:")}
@@ -249,7 +254,7 @@ def run_check(prop, tier):
         probes.setdefault(pname, 0)
     other = {k: v for k, v in stats.items()
              if not k.startswith(("op:", "fault:", "probe:"))}
-    campaign_digest = core.digest([d.get("trace_digest") for d in results])
+    campaign_digest = core.digest([td for _, td in sorted(run_digests, key=lambda x: x[0])])
     coverage = {
         "evaluations": max(1, n),
         "distinct_nontrivial": len(nontrivial_digests),
